@@ -273,11 +273,11 @@ def typing_task(task):
         # many expressions per script; bisect when something non-JS is seen
         def rec(es):
             ctx, seen = make_ctx()
-            body = SCAN_JS + "".join("try { scan(%s, 2); } catch (e%d) { inspect(e%d); }\n" % (e, i, i) for i, e in enumerate(es))
+            body = SCAN_JS + "".join("(function(){ try { scan(%s, 2); } catch (e) { inspect(e); } })();\n" % e for e in es)
             st, r = run(ctx, body + "0")
             if not seen and st != "exc":
                 return
-            if st == "exc" and not seen:
+            if st == "exc" and not seen and len(es) == 1:
                 return  # host exceptions are C04's business
             if len(es) == 1:
                 findings.append({"expr": es[0], "python_types": sorted(set(seen))})
